@@ -4,7 +4,9 @@ from vlib.core import Case
 
 ID = "C08"
 LEAN_MODULE = "Ctrmml.Properties.C08"
-THEOREMS = ["C08_delay_encoding", "C08_no_overflow", "C08_stream_parses", "C08_ctor_header"]
+THEOREMS = ["C08_delay_encoding", "C08_no_overflow", "C08_no_indeterminate_byte", "C08_eof_offset", "C08_stream_parses",
+            "C08_sample_total_header", "C08_gd3_offset", "C08_loop_consistent", "C08_gd3_eleven_strings", "C08_clocks_declared",
+            "C08_pcm_stream_in_block"]
 LEVEL = "proof"
 STREAM = "vgmw.ops+vgmsong"
 CHUNK = 40
@@ -339,7 +341,7 @@ def finding_key(case, impl, judge):
     j = judge
     for pat, key in ((r"GD3 strings not terminated|GD3 length|GD3 holds|GD3 magic", "gd3-strings"), (r"does not render", "gd3-tag-text"),
                      (r"loop", "loop"), (r"eof offset", "eof"), (r"GD3 offset", "gd3-offset"), (r"total", "sample-total"),
-                     (r"clock", "clock"), (r"stream \d+\+\d+ outside|length mode", "pcm-stream"), (r"command stream differs|does not parse", "stream"),
+                     (r"clock", "clock"), (r"stream start outside|length mode", "pcm-stream"), (r"command stream differs|does not parse", "stream"),
                      (r"data block payload", "datablock"), (r"undefined behaviour", "ub"), (r"range_error", "range-error")):
         if re.search(pat, j):
             return key
@@ -379,13 +381,17 @@ ASSUMPTIONS = ["delays are integers below 2^31 samples per flush (vgm_export cap
                "realloc never fails (bad_alloc is not modelled)",
                "date and notes defaults (wall clock, build stamp) are inputs of the model; the harness canonicalises them by shape"]
 TECHNIQUE = "Lean 4 proof (invariant over writer operation sequences, parser prefix lemmas) + differential correspondence model<->vgm.cpp + spec oracle on exported bytes"
-LEVEL_TEXT = ("Machine-checked theorems over a Lean model of vgm.cpp, for ALL inputs: (no_overflow) no sequence of public VGM_Writer operations "
-              "with any arguments stores outside the allocation; (delay_encoding) every delay is encoded by 61/7n waits summing to it; "
-              "(stream_parses, sample_total, determinacy up to stop) after any exporter operation sequence and stop the buffer is header ++ stream "
-              "++ 66 with every cell determinate, the VGM 1.61 reader of Spec/VgmParse consumes the stream exactly to the end marker and the "
-              "sample count equals the sum of the waits = the sum of the delays. The remaining clauses (EOF/GD3 offsets, header fields after "
-              "poke, loop offset/length, eleven GD3 strings = tags, clocks, PCM stream ranges) are stated in C08_full_statement and are decided "
-              "per case by the spec oracle on the real bytes (writer-level operation sequences and whole-song exports), not by a theorem.")
+LEVEL_TEXT = ("Machine-checked theorems over a Lean model of vgm.cpp, for ALL exporter operation sequences (caller header pokes; any PSG/YM2612 "
+              "writes, delays, loop points anywhere incl. sample 0, stream data blocks, DAC stream setup/start/stop; stop; write_tag with any "
+              "decodable tags; get_buffer): no store leaves the allocation (for every op sequence whatsoever); the export always returns a buffer "
+              "with no indeterminate cell; magic and EOF offset exact; the VGM 1.61 reader of Spec/VgmParse consumes the stream from the data "
+              "offset exactly to the end marker and reads exactly the expected command list; header total = sum of waits = sum of delays; GD3 "
+              "offset addresses the byte after the end marker; loop offset is a command boundary with exactly D samples before it and header "
+              "0x20 = total - D (both fields zero without loop point); the GD3 block is exact and splits into exactly eleven terminated UTF-16 "
+              "strings = the decoded tags cut at 256 units; declared clocks survive into the final header for every chip command; every stream "
+              "start addresses bytes of the type-0 data blocks written before it.")
 LEVEL_NOTE = ("Trusted: Lean kernel, the hand-written model Model/Vgm.lean (agreement with vgm.cpp by differential testing under ASan with "
-              "every fresh heap byte filled, zero differences), Spec/VgmParse.lean, integer delays, g++/ASan/UBSan and the harness. Partial: "
-              "header-field, loop, GD3-string, clock and PCM clauses rest on the spec oracle over generated cases, not on proof.")
+              "every fresh heap byte filled, zero differences), Spec/VgmParse.lean, integer delays < 2^31, file < 4 GiB for the 32-bit offset "
+              "clauses, g++/ASan/UBSan and the harness. The GD3 strings are tied to the tags through the model's UTF-8 decoder; that it inverts "
+              "the reader-side encoder, and the clock / PCM clauses at song level (MD_Driver passes the right pokes and sample windows), rest on "
+              "the spec oracle applied to whole-song exports (incl. PCM instruments), not on a theorem.")
